@@ -1250,6 +1250,35 @@ static void record_parse(const char *ev, int fl, int depth, const int *cuts, int
 	drop(&o);
 	json_tokener_free(t);
 }
+/* the convenience doors: json_tokener_parse_verbose / json_tokener_parse on the NUL-terminated text (a fresh default
+ * parser inside), and the message table */
+static void record_conv(void)
+{
+	T[TL] = 0;
+	enum json_tokener_error err = (enum json_tokener_error)-7;
+	json_object *v = json_tokener_parse_verbose((const char *)T, &err);
+	json_object *p = json_tokener_parse((const char *)T);
+	const char *desc = json_tokener_error_desc(err);
+	ev_begin("conv");
+	ev_bytes("text", T, (size_t)TL);
+	ev_str("st", errname(err));
+	ev_bool("has", v != NULL);
+	ev_bool("plain_has", p != NULL);
+	if (err == json_tokener_success)
+		dump_value("val", v); /* (the document null is the NULL pointer) */
+	else
+		dump_none("val");
+	ev_bool("plain_same", (v == NULL) == (p == NULL) && (!v || json_object_equal(v, p)));
+	ev_bool("desc_ok", desc && *desc && !strstr(desc, "Unknown error"));
+	/* values outside the enumeration get the fixed "unknown" text, never a wild read */
+	const char *d1 = json_tokener_error_desc((enum json_tokener_error)-1), *d2 = json_tokener_error_desc((enum json_tokener_error)(17 + (int)vh_below(1000)));
+	ev_bool("desc_unknown_ok", d1 && d2 && d1 == d2 && strstr(d1, "Unknown error") != NULL);
+	ev_end();
+	if (v)
+		json_object_put(v);
+	if (p)
+		json_object_put(p);
+}
 static void nest_doc(int levels, int mix, int leaf);
 static int valid_drive(int start, int nexec)
 {
@@ -1270,6 +1299,7 @@ static int valid_drive(int start, int nexec)
 			gen_doc(deep ? 20 + (int)vh_below(11) : 2 + (int)vh_below(5), deep ? 60 : 4 + (int)vh_below(40));
 		record_parse("parse", 0, 32, NULL, 0);
 		record_parse("parse", 1, 32, NULL, 0);
+		record_conv();
 	}
 	return 0;
 }
